@@ -76,6 +76,11 @@ CLAIMED = {
     design='5 C19',
     note='Trusted: myokit stub (protocol and sensitivity request are part of the solution term, so a rebuilt simulator that lost them is visible), term identity / z3. Outside: forked-worker evaluation (pints.ParallelEvaluator) and data frames.',
     technique='exhaustive bounded evaluation sequences executed symbolically; term/SMT equality against fresh-object evaluations'),
+ 'C15': dict(
+    text='Bounded symbolic verification of the predictive models over the RNG stub and the uninterpreted mechanistic model: every table value is a term; row by row it is decided that the value labelled (ID, time, observable) is the error model around the prediction for that output and time at that sample\'s parameters, that times ascend, that the parameters (read off the arguments of the solution symbol) are the given vector / a population draw with the documented law after the model\'s transform (n_samples equal to and different from the configured n_ids, covariates) / one joint (chain, draw) row of the selected individual / one prior draw, and that averaged models label samples 1..n model by model with the normalised weights.',
+    design='5 C15',
+    note='Trusted: RNG stub contract, pandas/xarray object columns, z3. Known finding: pooled dimension with n_samples < configured n_ids. Bounds: <=2 outputs, <=3 times, <=2 samples, <=2 chains x 2 (3) draws x 2 individuals, 2 averaged models.',
+    technique='symbolic execution with RNG stub; term inspection of the solution symbol + SMT decisions of the per-row law'),
 }
 
 NOT_APPLICABLE = {
